@@ -72,7 +72,7 @@ class Gen:
         py = form == "hidden" and dec == "none" and r.random() < 0.25
         early, inject = [], []
         if not py and r.random() < 0.2:
-            early = [self.fresh() for _ in range(1 if r.random() < 0.85 else 2)]
+            early = [self.fresh() for _ in range(r.randint(1, 2))]
         if not py and r.random() < 0.15:
             inject = [[self.fresh(), r.choice([0, 0, 1, 2]), Sym(r.choice(["none", "none", "raise", "ignore"]))]]
         return [Sym("cmd"), self.fresh(), rc, Sym(form), Sym(dec), prints, py, early, inject]
